@@ -1388,4 +1388,19 @@ theorem init_fresh (τ : List Addr) (entry : Addr) (orig : Code) (x : Nat) :
   · intro a; simp [hasKey, init]
 
 
+theorem execAll_cons (s : St) (op : Op) (ops : List Op) :
+    execAll s (op :: ops) = ((execAll (exec s op).1 ops).1, (exec s op).2 :: (execAll (exec s op).1 ops).2) := rfl
+
+theorem execAll_ginv {orig} (ho : Bytes orig) : ∀ (ops : List Op) (s : St), GInv orig s →
+    GInv orig (execAll s ops).1 ∧ (execAll s ops).1.τ = s.τ ∧ s.idx ≤ (execAll s ops).1.idx := by
+  intro ops
+  induction ops with
+  | nil => intro s h; exact ⟨h, rfl, Nat.le_refl _⟩
+  | cons op ops ih =>
+    intro s h
+    obtain ⟨e1, e2, _, e4⟩ := exec_ginv ho h op
+    obtain ⟨i1, i2, i3⟩ := ih _ e1
+    rw [execAll_cons]
+    exact ⟨i1, i2.trans e2, Nat.le_trans e4 i3⟩
+
 end BsVerif.Bp
